@@ -59,7 +59,8 @@ PROPS = {
               'threads = Some(v) only, anything else changes nothing; lemma: folding update in input order yields the last -threads '
               'value and depth iff some -depth occurred; scheme::compile emits the runtime-default thread expression when none was given.',
         not_decided=['position independence, the leading-run rule, `an option inside the expression behaves as -true`, `no option reaches '
-                     'the tree` (winnow combinator code in _parse)'],
+                     'the tree`: winnow combinator code in _parse, outside the verifier — covered only by the BOUNDED stand-in '
+                     'BOUNDED.parse_options (339 inputs through the public API; labelled bounded, not counted as proved)'],
     ),
     'C03': dict(
         level='proof',
@@ -69,7 +70,8 @@ PROPS = {
               'both debug_assertions settings; lifted front-end fragments with unwrap()s are decided by Kani over the domain the '
               'adjacent combinator admits.',
         not_decided=['the hoisted leaves (coverage.assumption_scan): the clock read duration_since(UNIX_EPOCH).unwrap(), std iterator plumbing, slice join, str::contains',
-                     'all combinator code incl. parse()\'s into_inner().unwrap() and ParserError::dispatch; thiserror\'s Display'],
+                     'all combinator code incl. parse()\'s into_inner().unwrap() and ParserError::dispatch; thiserror\'s Display — covered only by the '
+                     'BOUNDED stand-in BOUNDED.parse_total (3613 rejected / mutated / long non-ASCII inputs; labelled bounded, not counted as proved)'],
     ),
     'C17': dict(
         level='proof',
@@ -83,7 +85,8 @@ PROPS = {
         kani=['units', 'timespec', 'permission'],
         scope='count*unit: Size::byte_size returns exactly count*unit for every u64 count (128-bit result, overflow freedom proved); '
               'unit tables (C19); the thread count and comparison operands reach the emitted text without narrowing conversions.',
-        not_decided=['digit run -> integer (str::parse::<uN>, winnow glue)'],
+        not_decided=['digit run -> integer (str::parse::<uN>, winnow glue): outside the verifier — covered only by the BOUNDED stand-in '
+                     'BOUNDED.parse_numbers (342 boundary arguments; labelled bounded, not counted as proved)'],
     ),
     'C15': dict(
         level='proof',
